@@ -373,6 +373,81 @@ fn check_c04(c: &TxCase, info: &mut CaseInfo) -> CheckResult {
     Ok(())
 }
 
+/// C04 on delivered worlds: deliver a branchy world (ends multi-head), then run one action that dumps what it sees.
+fn check_c04_delivery(c: &Case, info: &mut CaseInfo) -> CheckResult {
+    use crate::policy::{ActionScript, Publish};
+    use crate::world::{Payload, merge_id};
+    let mut w = World::from_recipe(&c.recipe, HONEST);
+    let set = target_set(&w, c.subset);
+    classify(&w, info);
+    let mut sc = c.scripts[0].clone();
+    sc.file = false;
+    let mut rep = crate::replica::MemReplica::new_mem();
+    scenario::run_script(&mut rep, &w, &set, &sc, Flags::default())?;
+    let f = scenario::frontier_sorted(&w, &set);
+    info.label(match f.len() {
+        1 => "heads1",
+        2 => "heads2",
+        3..=5 => "heads3-5",
+        _ => "heads6+",
+    });
+    let before = rep.obs().map_err(|e| vcommon::Failure::new("observation failed", e))?;
+    let want = w.headset_state(&f).map_err(|_| vcommon::Failure::new("HARNESS: parallel finalize in honest world", ""))?;
+    vcommon::ensure!(before.facts == want, "C03: committed fact state differs from the reference braid", "heads {}", f.len());
+    // model of the collapse
+    let mut q: std::collections::VecDeque<usize> = f.iter().copied().collect();
+    while q.len() > 1 {
+        let l = q.pop_front().unwrap();
+        let r = q.pop_front().unwrap();
+        let id = merge_id(&w.cmds[l].id, &w.cmds[r].id);
+        let mi = match w.by_id.get(&id) {
+            Some(i) => *i,
+            None => {
+                let (a, b) = if w.cmds[l].id < w.cmds[r].id { (l, r) } else { (r, l) };
+                w.push(id, Kind::Merge, vec![a, b], Payload::empty())
+            }
+        };
+        q.push_back(mi);
+    }
+    let head = q[0];
+    vcommon::ensure!(
+        before.hello == (w.cmds[head].id, w.cmds[head].max_cut),
+        "C04: hello head is not the address of the merge the collapse writes",
+        "heads {}",
+        f.len()
+    );
+    let id = w.fresh_id(0xC04);
+    let n = rep.audit.dumps.borrow().len();
+    let sink_before = rep.sink.log.len();
+    rep.action(ActionScript {
+        init: false,
+        dump: true,
+        publishes: vec![Publish {
+            id,
+            kind: Kind::Basic(0),
+            payload: Payload::empty(),
+        }],
+    })
+    .map_err(|e| vcommon::Failure::new("C07: action failed", e.to_string()))?;
+    let seen = rep.audit.dumps.borrow()[n].clone();
+    vcommon::ensure!(
+        seen == before.facts,
+        "C04: an action observes a fact state different from what queries saw before the collapse",
+        "heads [{}]\n action {}\n query  {}",
+        scenario::shorts(&scenario::ids_of(&w, &f)),
+        scenario::fmt_facts(&seen),
+        scenario::fmt_facts(&before.facts)
+    );
+    let effs = rep.sink.log[sink_before..].iter().filter(|e| matches!(e, crate::policy::SinkEv::Consume(_))).count();
+    vcommon::ensure!(effs == 1, "C04: collapsing the heads for an action emitted effects (or the action's own effects are wrong)", "{effs} effects");
+    if f.len() >= 2 {
+        info.nontrivial();
+        let loc = rep.locate(&before.hello.0, before.hello.1).map_err(|e| vcommon::Failure::new("get_location failed", e))?;
+        vcommon::ensure!(loc.is_some(), "C04: the advertised hello head is not in the graph after the collapse", "");
+    }
+    Ok(())
+}
+
 pub fn run_c04(ctx: &Ctx) -> ! {
     let mut rep = Report::new(ctx, "exploration");
     rep.assume(ASSUME_MODEL);
@@ -386,6 +461,16 @@ pub fn run_c04(ctx: &Ctx) -> ! {
         || txcase_strategy(30, 30, 2, 8, 1),
         ctx.pick(4000, 150_000),
         check_c04,
+    );
+    rep.explore(
+        "collapse_after_delivery",
+        "branchy worlds (<= 40 recipe steps incl. fans, combs, ladders, nested merges) delivered by a generated script so that the \
+         replica ends with 1-20 committed heads; then one action dumps the facts it observes and publishes one command; oracle as \
+         above (fact cache == reference braid == view inside the action after the pairwise collapse, hello head == collapsed \
+         merge, only the action's own effect); non-trivial = >= 2 heads",
+        || case_strategy(40, 1, 3, 1..2),
+        ctx.pick(5000, 150_000),
+        check_c04_delivery,
     );
     rep.finish()
 }
